@@ -18,7 +18,7 @@ WORDS = (0x020000F0, 0x2B2C0000, 0x11223344, 0x21000000, 0xAABBCCDD, 0x12345678,
 
 HARNESSES = [
     {"fn": "h_ud_name", "cases": ["UD", "ED"], "timeout": {"quick": 90, "thorough": 300}},
-    {"fn": "h_src_args", "cases": ["w%d" % i for i in range(8)] + ["wc", "creator", "ascii"], "quick_cases": ["w0", "w7", "wc", "creator"],
+    {"fn": "h_src_args", "cases": ["w%d" % i for i in range(8)] + ["wc", "creator", "ascii", "wc:after9"], "quick_cases": ["w0", "w7", "wc", "creator", "wc:after9"],
      "timeout": {"quick": 90, "thorough": 300}},
     {"fn": "h_osrc", "cases": ["comp", "kind", "absent"], "timeout": {"quick": 90, "thorough": 300}},
     {"fn": "h_osrc_seq", "cases": ["BC-BD", "BD-BC", "BD-BD"], "timeout": {"quick": 90, "thorough": 300}},
@@ -123,7 +123,7 @@ def h_src_args() -> bool:
     if CASE[0] == "w" and CASE[1:].isdigit():
         i = int(CASE[1:])
         words[i] = sym_int("x", 0, 0xFFFFFFFF)
-    elif CASE == "wc":
+    elif CASE.startswith("wc"):
         wc = sym_int("wc", 1, 9)
     elif CASE == "creator":
         creator = chr(letter("creator"))
@@ -133,15 +133,21 @@ def h_src_args() -> bool:
     data = pb.flat(pb.SRC(words=words, wc=wc, ascii=ascii))
     try:
         with env() as e:
+            if CASE == "wc:after9":
+                # history: an SRC with all 9 words was decoded (and handed to its parser) just before
+                decode(pb.flat(pb.SRC(words=(0xF0F0F0F0,) * 8, wc=9, ascii=b"BD8D9999")), creator)
+                del e.imp.requested[:]
+                del e.imp.calls[:]
             name, out, used = decode(data, creator)
     except Exception as ex:
         return verdict(False, obs={"exception": repr(ex)})
     cl = lower_cp(ord(creator[0])) if is_sym(creator) or True else None
     expmod = [ord(c) for c in "srcparsers."] + [lower_cp(ord(creator))] + [ord(c) for c in "src."] + [lower_cp(ord(creator))] + [ord(c) for c in "src"]
-    conds = [len(e.imp.requested) == 1, len(e.imp.calls) == 1]
-    if len(e.imp.requested) == 1 and len(e.imp.calls) == 1:
+    cached = CASE == "wc:after9"          # the module was imported (and cached) by the first decode
+    conds = [len(e.imp.requested) == (0 if cached else 1), len(e.imp.calls) == 1]
+    if len(e.imp.calls) == 1 and (cached or len(e.imp.requested) == 1):
         c = e.imp.calls[0]
-        conds += [str_is(e.imp.requested[0], expmod), c.kind == "SRC", len(c.args) == 9]
+        conds += [cached or str_is(e.imp.requested[0], expmod), c.kind == "SRC", len(c.args) == 9]
         if len(c.args) == 9:
             # reference code, then hex words 2..9 in order; words beyond the valid count are zero
             if CASE == "ascii":
